@@ -103,6 +103,8 @@ func c04(c *eng.Ctx, r *eng.Report) {
 		"R4.5/R4.6 RevertToSnapshot undoes entries from the last down to the snapshot index inclusive and truncates both journal and revision list; Snapshot records len(journal). " +
 		"R4.7 every state read that feeds a member of a journal entry happens before any write (direct or through a package callee) to the same field in that mutator — the entry captures the pre-state. " +
 		"R4.8 an account object is always either in the dirty set or has its one-shot onDirty hook armed: whoever takes an address out of accountObjectsDirty re-arms the hook of that object or drops the object from the cache (undo of a touch, undo of a creation, Commit), whoever replaces the dirty set replaces the object cache with it, and the hook is cleared only right after it was called — otherwise writes made after a revert are never marked dirty and the root computed afterwards lacks them. " +
+		"R4.12 a journalled map is written, read and cleared under one key derivation: within the methods of one type of the account package, every string key that is computed from a hash or address by a method call uses the same method (transientStorage: key.String() in the set, delete and get paths) — a set that stores under one spelling while the delete path removes another makes the journal's undo of a first write a no-op; " +
+		"R4.11 the state object holds nothing the journal does not know about: every field of AccountDB and accountObject is either journaled (R4.1) or in the reviewed list of fields that are not state (handles, locks, error memos, per-transaction tags) — a new field, e.g. a cache of decoded balances, is reported until it is classified, because whatever mirrors journaled state and is not undone survives a revert; " +
 		"R4.10 every Snapshot() hands out a fresh revision: each return is preceded on every path by the increment of nextRevisionID and an append to validRevisions, and returns the id that was appended — two live snapshots never share an id (reverting the inner one would consume the outer one's revision); and every argument of a restoring setter call in an undo comes from what the entry recorded, never a constant (an entry that no longer carries the previous value cannot restore it); " +
 		"R4.9 the access-list undo helpers are the exact inverses of what was journaled: an address leaves accessList.addresses only in DeleteAddress (the inverse of AddAddress), and DeleteSlot — the inverse of adding a slot to an address already present — only resets that address's slot index to -1, it never removes the address. " +
 		"Not decided: value equality of every query after revert; equality of state roots."
@@ -116,6 +118,8 @@ func c04(c *eng.Ctx, r *eng.Report) {
 	c04DirtyOrArmedAs(c, r, "R4.8")
 	c04AccessListInverses(c, r)
 	c04FreshRevision(c, r)
+	c04StructCensusAs(c, r, "R4.11")
+	c04OneKeyDerivation(c, r)
 }
 
 func shortStruct(t string) string { return strings.TrimPrefix(t, "storage/account.") }
@@ -1185,5 +1189,105 @@ func c04FreshRevision(c *eng.Ctx, r *eng.Report) {
 		r.Pass(rule, "restore-from-entry:all", "", fmt.Sprintf("%d setter arguments in undo functions, all taken from the entry", checked))
 	} else {
 		r.Fail(rule, "restore-from-entry:sites", "", fmt.Sprintf("only %d setter arguments found in undo functions (≥8 expected)", checked))
+	}
+}
+
+// nonStateFields: fields of the state structs that are not journaled, with the reason (reviewed).
+var nonStateFields = map[string]map[string]string{
+	"AccountDB": {
+		"db": "handle of the backing store", "trie": "the account trie (written only by Finalise/Commit)", "accountObjectsLock": "mutex",
+		"dbErr": "first database error, returned by Commit", "nextRevisionID": "revision counter (R4.6, R4.10)",
+		"thash": "per-transaction tag set by Prepare", "bhash": "per-transaction tag set by Prepare", "txIndex": "per-transaction tag set by Prepare",
+	},
+	"accountObject": {
+		"address": "immutable identity", "addrHash": "immutable identity", "data": "the account record: its fields are journaled one by one (Account.*)", "db": "back pointer",
+		"dbErr": "first database error", "trie": "storage trie (written only by updateTrie/CommitTrie)", "cachedLock": "mutex",
+		"deleted": "set by Commit/Finalise only (deleteAccountObject)", "onDirty": "one-shot dirty hook (R4.8)",
+	},
+}
+
+// c04StructCensusAs: every field is accounted for.
+func c04StructCensusAs(c *eng.Ctx, r *eng.Report, rule string) {
+	r.Min(rule, 2)
+	for _, tn := range []string{"AccountDB", "accountObject"} {
+		st := c.Struct(acctPkg, tn)
+		if !r.Anchor(st != nil, rule, "storage/account."+tn) {
+			continue
+		}
+		var unknown []string
+		for i := 0; i < st.NumFields(); i++ {
+			f := st.Field(i).Name()
+			journaled := false
+			for _, j := range journaledFields["storage/account."+tn] {
+				if j == f {
+					journaled = true
+				}
+			}
+			if !journaled && nonStateFields[tn][f] == "" {
+				unknown = append(unknown, f+" "+st.Field(i).Type().String())
+			}
+		}
+		r.Check(len(unknown) == 0, rule, "struct-census:"+tn, "", fmt.Sprintf("all %d fields are journaled or reviewed as not being state", st.NumFields()), tn+" has field(s) ["+strings.Join(unknown, "; ")+"] that are neither journaled nor reviewed: if they hold or mirror state (a cache of decoded balances, a memo of a lookup) nothing undoes them on RevertToSnapshot — a value read between a write and its rollback is served afterwards, affordability checks pass on funds that were rolled back and the debit then fails silently while the credit lands")
+	}
+}
+
+// c04OneKeyDerivation: see R4.12.
+func c04OneKeyDerivation(c *eng.Ctx, r *eng.Report) {
+	const rule = "R4.12"
+	r.Min(rule, 1)
+	type use struct{ callee, pos string }
+	groups := map[string][]use{}
+	add := func(fn *ssa.Function, m, k ssa.Value, pos token.Pos) {
+		mt, ok := m.Type().Underlying().(*types.Map)
+		if !ok {
+			return
+		}
+		if b, isB := mt.Key().Underlying().(*types.Basic); !isB || b.Kind() != types.String {
+			return
+		}
+		call, isCall := eng.Unwrap(k).(*ssa.Call)
+		if !isCall || call.Common().StaticCallee() == nil || call.Common().Signature().Recv() == nil {
+			return
+		}
+		g := "package"
+		if fn.Signature.Recv() != nil {
+			g = types.TypeString(fn.Signature.Recv().Type(), func(*types.Package) string { return "" })
+		}
+		recvT := types.TypeString(call.Common().Signature().Recv().Type(), func(p *types.Package) string { return p.Name() })
+		g += " keyed by " + strings.TrimPrefix(recvT, "*")
+		groups[g] = append(groups[g], use{call.Common().StaticCallee().Name(), c.Pos(pos)})
+	}
+	for _, fn := range c.PkgFuncs("storage/account") {
+		for _, b := range fn.Blocks {
+			for _, in := range b.Instrs {
+				switch x := in.(type) {
+				case *ssa.MapUpdate:
+					add(fn, x.Map, x.Key, x.Pos())
+				case *ssa.Lookup:
+					add(fn, x.X, x.Index, x.Pos())
+				case *ssa.Call:
+					if bi, ok := x.Call.Value.(*ssa.Builtin); ok && bi.Name() == "delete" {
+						add(fn, x.Call.Args[0], x.Call.Args[1], x.Pos())
+					}
+				}
+			}
+		}
+	}
+	keys := make([]string, 0, len(groups))
+	for g := range groups {
+		keys = append(keys, g)
+	}
+	sort.Strings(keys)
+	for _, g := range keys {
+		set := map[string]string{}
+		for _, u := range groups[g] {
+			set[u.callee] = u.pos
+		}
+		names := make([]string, 0, len(set))
+		for n := range set {
+			names = append(names, n)
+		}
+		sort.Strings(names)
+		r.Check(len(names) == 1, rule, "one-key:"+g, groups[g][0].pos, fmt.Sprintf("%d map accesses, all keyed by %s()", len(groups[g]), names[0]), fmt.Sprintf("the methods of %s address their maps under different spellings of the same key (%s; e.g. %s): an entry written under one spelling is not found by the path that uses the other — transientStorage.Set stores under one and deletes under the other, so the journal's undo of a first TSTORE (set back to zero) removes nothing and the reverted value stays readable", g, strings.Join(names, "() and ")+"()", set[names[len(names)-1]]))
 	}
 }
